@@ -142,3 +142,5 @@ def check(ctx):
     import_rules(ctx, "c04", {"scan-compensation", "layout-agreement"})
     import_rules(ctx, "c07", {"stored-count-wins"})
     import_rules(ctx, "c17", {"slot-walk"})
+    # rabuf extends a file when a seek target lies beyond its end: slot ends must be computed from slot starts
+    import_rules(ctx, "c09", {"slot-end-from-slot-start"})
